@@ -105,6 +105,11 @@ func (c *Ctx) resolveHandler(hv hVal, depth int) []Chain {
 		if a, ok := x.X.(*ssa.Alloc); ok {
 			return c.resolveCell(a, hv.env, depth)
 		}
+		if fa, ok := x.X.(*ssa.FieldAddr); ok {
+			if fv, ok := c.structField(hVal{fa.X, hv.env}, fa.Field, depth+1); ok {
+				return c.resolveHandler(fv, depth+1)
+			}
+		}
 		if fv, ok := x.X.(*ssa.FreeVar); ok {
 			// captured cell
 			for e := hv.env; e != nil; e = e.outer {
@@ -215,6 +220,7 @@ func (c *Ctx) resolveCall(call *ssa.Call, env *hEnv, depth int) []Chain {
 type funcVal struct {
 	mw2     ssa.CallInstruction // call of MountedMiddleware2/Middleware2 producing this func
 	closure *ssa.Function
+	recv    *hVal // bound method value: the receiver the method is called on
 	mc      *ssa.MakeClosure
 	env     *hEnv
 	why     string
@@ -251,6 +257,12 @@ func (c *Ctx) funcValues(hv hVal, depth int) []funcVal {
 		return []funcVal{{why: "result of " + n}}
 	case *ssa.MakeClosure:
 		if f, ok := x.Fn.(*ssa.Function); ok {
+			if strings.HasPrefix(f.Synthetic, "bound method wrapper") && len(x.Bindings) == 1 {
+				// a method value of a repository type used as a wrapper: the method, called on the bound receiver
+				if m := c.realFunc(f); m != nil && m != f && c.inRepo(m) && len(m.Params) > 0 {
+					return []funcVal{{closure: m, recv: &hVal{x.Bindings[0], hv.env}, env: hv.env}}
+				}
+			}
 			return []funcVal{{closure: f, mc: x, env: hv.env}}
 		}
 	case *ssa.ChangeType:
@@ -288,6 +300,11 @@ func (c *Ctx) funcValues(hv hVal, depth int) []funcVal {
 		if a, ok := x.X.(*ssa.Alloc); ok {
 			return resolveAlloc(a, hv.env)
 		}
+		if fa, ok := x.X.(*ssa.FieldAddr); ok {
+			if fv, ok := c.structField(hVal{fa.X, hv.env}, fa.Field, depth+1); ok {
+				return c.funcValues(fv, depth+1)
+			}
+		}
 		if fv, ok := x.X.(*ssa.FreeVar); ok {
 			for e := hv.env; e != nil; e = e.outer {
 				if b, ok := e.binds[fv]; ok {
@@ -297,6 +314,10 @@ func (c *Ctx) funcValues(hv hVal, depth int) []funcVal {
 					return c.funcValues(hVal{b, e.outer}, depth+1)
 				}
 			}
+		}
+	case *ssa.Field:
+		if fv, ok := c.structField(hVal{x.X, hv.env}, x.Field, depth+1); ok {
+			return c.funcValues(fv, depth+1)
 		}
 	case *ssa.FreeVar:
 		for e := hv.env; e != nil; e = e.outer {
@@ -319,7 +340,12 @@ func (c *Ctx) funcValues(hv hVal, depth int) []funcVal {
 func (c *Ctx) inlineClosure(fv funcVal, args []ssa.Value, callerEnv *hEnv, depth int) []Chain {
 	f := fv.closure
 	env := &hEnv{params: map[*ssa.Parameter]hVal{}, binds: map[*ssa.FreeVar]ssa.Value{}, outer: fv.env}
-	for i, p := range f.Params {
+	params := f.Params
+	if fv.recv != nil && len(params) > 0 {
+		env.params[params[0]] = *fv.recv
+		params = params[1:]
+	}
+	for i, p := range params {
 		if i < len(args) {
 			env.params[p] = hVal{args[i], callerEnv}
 		}
@@ -418,4 +444,73 @@ func pathPattern(v ssa.Value) string {
 		}
 	}
 	return "…"
+}
+
+// structField: the value held by field number field of the struct that hv
+// is (or points to), as far as it can be read off: a local composite literal
+// (field stores), a copy of one (whole store), a receiver or parameter bound
+// in the environment, a captured variable.
+func (c *Ctx) structField(hv hVal, field int, depth int) (hVal, bool) {
+	if depth > 14 || hv.v == nil {
+		return hVal{}, false
+	}
+	switch x := hv.v.(type) {
+	case *ssa.Alloc:
+		if x.Referrers() == nil {
+			return hVal{}, false
+		}
+		var found *hVal
+		n := 0
+		for _, ref := range *x.Referrers() {
+			switch r := ref.(type) {
+			case *ssa.FieldAddr:
+				if r.Field != field || r.Referrers() == nil {
+					continue
+				}
+				for _, rr := range *r.Referrers() {
+					if st, ok := rr.(*ssa.Store); ok && st.Addr == ssa.Value(r) {
+						found = &hVal{st.Val, hv.env}
+						n++
+					}
+				}
+			case *ssa.Store:
+				if r.Addr == ssa.Value(x) {
+					if fv, ok := c.structField(hVal{r.Val, hv.env}, field, depth+1); ok {
+						found = &fv
+						n++
+					}
+				}
+			}
+		}
+		if n == 1 {
+			return *found, true
+		}
+	case *ssa.UnOp:
+		return c.structField(hVal{x.X, hv.env}, field, depth+1)
+	case *ssa.MakeInterface:
+		return c.structField(hVal{x.X, hv.env}, field, depth+1)
+	case *ssa.ChangeType:
+		return c.structField(hVal{x.X, hv.env}, field, depth+1)
+	case *ssa.Parameter:
+		for e := hv.env; e != nil; e = e.outer {
+			if a, ok := e.params[x]; ok {
+				return c.structField(a, field, depth+1)
+			}
+		}
+	case *ssa.FreeVar:
+		for e := hv.env; e != nil; e = e.outer {
+			if b, ok := e.binds[x]; ok {
+				return c.structField(hVal{b, e.outer}, field, depth+1)
+			}
+		}
+	case *ssa.FieldAddr:
+		if inner, ok := c.structField(hVal{x.X, hv.env}, x.Field, depth+1); ok {
+			return c.structField(inner, field, depth+1)
+		}
+	case *ssa.Field:
+		if inner, ok := c.structField(hVal{x.X, hv.env}, x.Field, depth+1); ok {
+			return c.structField(inner, field, depth+1)
+		}
+	}
+	return hVal{}, false
 }
